@@ -571,7 +571,7 @@ def _big_from(ip, st, t, a, rt):
     return as_rf(a[0])
 
 
-@regx(r'(Default for (ibig::IBig|dashu_int::IBig|malachite_nz::integer::Integer|num_bigint::BigInt)>::default$)|(<(malachite_nz::integer::Integer|num_bigint::BigInt|dashu_int::IBig|ibig::IBig) as std::default::Default>::default$)')
+@regx(r'(Default for (ibig::IBig|dashu_int::IBig|dashu::integer::IBig|malachite_nz::integer::Integer|num_bigint::BigInt)>::default$)|(<(malachite_nz::integer::Integer|num_bigint::BigInt|dashu_int::IBig|ibig::IBig) as std::default::Default>::default$)')
 def _big_default(ip, st, t, a, rt):
     return RF.const(0)
 
